@@ -142,6 +142,18 @@ example :
         some [0x30, 0x80, 0xA0, 0x80, 0x30, 0x80, 0x02, 0x01, 0x05, 0, 0, 0, 0, 0x04, 0x01, 0x09, 0, 0] := by
   decide +kernel
 
+/-- **FF for TRUE at the source level** (X.690 11.1): `BooleanEncoder.encodeValue` of cer/encoder.py - the CER and DER encoder
+    of BOOLEAN - translated from the working tree (`GenK.cerBoolEnc`) writes one contents octet, `00` for FALSE and `FF` for
+    every other value, in primitive form: what the encoder model writes under the CER and DER tables -/
+theorem source_true_is_ff (b : Bool) :
+    GenK.cerBoolEnc (if b then 1 else 0) = .ok (Kernels.bytesInts [UInt8.ofNat (if b then Generated.cerEnc.boolTrue else 0)], false, false) ∧
+    GenK.cerBoolEnc (if b then 1 else 0) = .ok (Kernels.bytesInts [UInt8.ofNat (if b then Generated.derEnc.boolTrue else 0)], false, false) ∧
+    ∀ z : Int, z ≠ 0 → GenK.cerBoolEnc z = .ok ([255], false, false) := by
+  refine ⟨by cases b <;> rfl, by cases b <;> rfl, ?_⟩
+  intro z hz
+  unfold GenK.cerBoolEnc
+  simp [hz, bind, Except.bind, pure, Except.pure]
+
 /-- **SET OF order at the source level** (X.690 11.6): `SetOfEncoder.encodeValue` of cer/encoder.py - the CER and DER encoder
     of SET OF - translated from the working tree by gen/py2lean.py (`GenK.setOfSort`; the element encodings are its
     argument): for every list of element encodings the source writes them in ascending order of their octets padded with
